@@ -104,8 +104,11 @@ def main(argv):
         print("TOOL-FAILURE (tree does not compile or extraction failed): %s" % ex)
         return 2
     # floors: fail closed when fewer instances than confirmed by hand
+    lost = any(i["key"].endswith((":anchor-lost", ":rule-error")) for r in ctx.rules for i in r.instances)
     for r in ctx.rules:
         n = len([i for i in r.instances if not i["key"].endswith((":anchor-lost", ":rule-error"))])
+        if n == 0 and lost:
+            continue  # already reported as a lost anchor
         if n < r.floor:
             r.fail("floor", "only %d instances found, %d were confirmed by hand on the reference tree: an anchor moved or a site disappeared; re-confirm by reading" % (n, r.floor))
     known = load_known()
